@@ -1,8 +1,80 @@
 import JrsVerif.Common.J
+import JrsVerif.Model.Format
+import JrsVerif.Model.FormatSpec
 
 namespace JrsVerif.Drv.C12
-open Lean JrsVerif.J
+open Lean JrsVerif.J JrsVerif.Format
 
-def handle (_op : String) (_j : Json) : Option Json := none
+def cps (a : Array Json) : List Char := (nats a).map Char.ofNat
+
+def natStr? (j : Json) (k : String) : Option Nat := do (← str? j k).toNat?
+
+def parseDigs (a : Array Json) : Option (List (Nat × FDig)) :=
+  a.toList.mapM (fun e => do
+    match e with
+    | .arr #[p, w, f] =>
+      let p ← p.getNat?.toOption
+      let w ← (← w.getStr?.toOption).toNat?
+      let f ← (← f.getStr?.toOption).toNat?
+      pure (p, ({ whole := w, frac := f } : FDig))
+    | _ => none)
+
+partial def parseVal (j : Json) : Option Val := do
+  match ← str? j "k" with
+  | "num" =>
+    let n : Num := {
+      neg := ← bool? j "neg", whole := ← natStr? j "whole", fracNZ := ← bool? j "frac",
+      exp := (int? j "exp").getD 0,
+      fix := (← parseDigs ((arr? j "fix").getD #[])),
+      sci := (← parseDigs ((arr? j "sci").getD #[])) }
+    some (.num n (cps (← arr? j "disp")))
+  | "str" => some (.str (cps (← arr? j "s")))
+  | "other" => some (.other (cps (← arr? j "disp")))
+  | "obj" =>
+    let fs ← (← arr? j "f").toList.mapM (fun e => do
+      match e with
+      | .arr #[.arr k, v] => pure (cps k, ← parseVal v)
+      | _ => none)
+    some (.obj fs (cps (← arr? j "disp")))
+  | _ => none
+
+def showR : R (List Char) → Json
+  | .ok s => obj [("ok", ofNats (s.map Char.toNat))]
+  | .error e => obj [("err", .str e.name)]
+
+def isOracleErr : R (List Char) → Bool
+  | .error .oracle => true
+  | _ => false
+
+/-- `fmt` : {"fmt":[code points],"mode":"arr"|"single","vals":[V…]} → model / spec result.
+    `fmt.parse` : {"fmt":[…]} → only the parse outcome (number of elements or error class). -/
+def handle (op : String) (j : Json) : Option Json :=
+  match op with
+  | "fmt" =>
+    match (do
+      let f ← arr? j "fmt"
+      let mode ← str? j "mode"
+      let vs ← (← arr? j "vals").toList.mapM parseVal
+      let args ← (match mode, vs with
+        | "arr", vs => some (Args.arr vs)
+        | "single", [v] => some (Args.single v)
+        | _, _ => none)
+      pure (cps f, args)) with
+    | none => some (bad "fmt: parse")
+    | some (f, args) =>
+      let m := Format.stdFormat f args
+      let s := FormatSpec.stdFormat f args
+      if isOracleErr m || isOracleErr s then some (bad "fmt: digit oracle entry missing")
+      else some (obj [("model", showR m), ("spec", showR s)])
+  | "fmt.parse" =>
+    match arr? j "fmt" with
+    | none => some (bad "fmt.parse: parse")
+    | some f =>
+      let sh (r : R (List Elem)) : Json := match r with
+        | .ok es => obj [("ok", toJson es.length),
+            ("codes", toJson (es.filter (fun e => match e with | .code _ => true | _ => false)).length)]
+        | .error e => obj [("err", .str e.name)]
+      some (obj [("model", sh (Format.parseCodes (cps f))), ("spec", sh (FormatSpec.parseFmt (cps f)))])
+  | _ => none
 
 end JrsVerif.Drv.C12
